@@ -205,7 +205,19 @@ func scShutdown(r *Run) {
 				if !e.closed {
 					continue
 				}
-				done := WithTimeout(r, 90*time.Second, func() { e.t.WaitForClose() })
+				// (the bound is on standing still, not on being slow: a tube that still has megabytes to move
+				// under heavy loss when it is closed needs its time; as long as frames keep being acknowledged
+				// or delivered in order, another 90 seconds are granted - 40 times at most)
+				done := false
+				for round, last := 0, tubes.VerifProgress(e.t); round < 40 && !done; round++ {
+					done = WithTimeout(r, 90*time.Second, func() { e.t.WaitForClose() })
+					now := tubes.VerifProgress(e.t)
+					if done || now == last {
+						break
+					}
+					last = now
+					r.Probe("waitforclose-slow-but-moving")
+				}
 				mu.Lock()
 				_, stopping := stopCalled[e.muxName]
 				peerGone := len(stopCalled) > 0 && !stopping
